@@ -185,6 +185,10 @@ func CheckC06(sc *Scenario, res *Result) *Violation {
 			} else if !e.ErrNil {
 				return violf("C06-healthy-return", "healthy %s #%d returned error %q", w.Kind, w.ID, e.Err)
 			}
+		case "rerun-waited":
+			if w := work[e.ID]; w != nil && w.QueueInside && e.Info == fmt.Sprintf("runs=%d", w.Requeue+1) {
+				return violf("C06-task-rerun", "task #%d was queued again while its panicking execution was running and did not run for that submission within 20 s", e.ID)
+			}
 		case "requeued":
 			w := work[e.ID]
 			if w != nil && w.Panic != "" && w.Mode == "finish" && e.Info == "runs=1" {
